@@ -539,8 +539,9 @@ class EvalFunc:
                             return None
 
                         task = Function.create_task(do_service_call(func, ast_ctx, func_args), ast_ctx=ast_ctx)
-                        await task
-                        return task.result()
+                        # the run is a task of its own: if it is cancelled (task.cancel, task.unique) the caller goes on
+                        await asyncio.wait([task])
+                        return None if task.cancelled() else task.result()
 
                     return pyscript_service_handler
 
